@@ -715,10 +715,10 @@ theorem closeCurrent_timeouts (e : Engine) : e.closeCurrent.1.timeouts = e.timeo
 
 /-- **`handle_network_event_connection_closed` keeps the second layer**: afterwards every operation waits in exactly one of
     the two queues, and what waits in the user queue passes the offline policy. -/
-theorem handleClosed_extra (e : Engine) (hinv : Inv e) (hx : Extra false [] e.view) : Extra false [] e.handleClosed.1.view := by
+theorem handleClosedCore_extra (e : Engine) (hinv : Inv e) (hx : Extra false [] e.view) : Extra false [] e.handleClosedCore.1.view := by
   obtain ⟨hok, h, hD, hS⟩ := hinv
   have hnd := loc_nodup e h hx
-  unfold Engine.handleClosed
+  unfold Engine.handleClosedCore
   split
   · exact hx
   · simp only []
@@ -806,6 +806,30 @@ theorem handleClosed_extra (e : Engine) (hinv : Inv e) (hx : Extra false [] e.vi
         have hcfg : e14.cfg = e9.cfg := l14.1.1
         show passesPolicy o.packet e14.cfg.policy = true
         rw [hcfg]; exact this }
+
+
+/-- ... and so does the whole handler, which applies the elapsed ack timeouts first -/
+theorem handleClosed_extra (e : Engine) (hinv : Inv e) (hx : Extra false [] e.view) : Extra false [] e.handleClosed.1.view := by
+  unfold Engine.handleClosed
+  split
+  · exact hx
+  · rename_i hd
+    have hnd : e.state ≠ .disconnected := by simpa using hd
+    have hk := ((processAckTimeouts_hk (e.timeouts.length + 1) e).inv hinv hnd).1
+    have hxa : Extra false [] (Engine.processAckTimeouts (e.timeouts.length + 1) e).1.view := by
+      by_cases hpc : e.state = .pendingConnack
+      · have hnt : e.timeouts = [] := by
+          have := (hinv.2.1.h1 hpc).2.2.2.2
+          simpa [Engine.view] using this
+        rw [processAckTimeouts_nil _ e hnt]; exact hx
+      · exact processAckTimeouts_extra _ e hx hpc
+    generalize Engine.processAckTimeouts (e.timeouts.length + 1) e = x0 at hk hxa ⊢
+    obtain ⟨ea, ra⟩ := x0
+    simp only [] at hk hxa ⊢
+    have h1 := handleClosedCore_extra ea hk hxa
+    generalize ea.handleClosedCore = x1 at h1 ⊢
+    obtain ⟨eb, rb⟩ := x1
+    exact h1
 
 /-! ### every history -/
 
